@@ -53,6 +53,7 @@ Definition fa (b : block) : N * N := (b_frame b, b_atropos b).
 
 Section Elect.
 Variable cap : nat.
+Variable ep : N.
 Variable lam : fev -> N.
 Variable vals : list (N * N).
 Hypothesis Hvals : vals_ok vals.
@@ -70,7 +71,7 @@ Notation q := (ElectionSpec.quorum_of ws).
 Notation fcn := (fc_n ws q).
 Notation rts := (roots_at node nd_fr nd_spf T).
 Notation slot := (slot vals).
-Notation Core := (Core lam vals).
+Notation Core := (Core ep lam vals).
 Notation cache_inv := (cache_inv vals).
 Notation EI := (EI vals T).
 Notation eb := (policy_fn []).
@@ -127,7 +128,7 @@ Proof.
     eapply EI_weaken; [exact I|]. intros r [H|[m [[] _]]]. exact H.
   - destruct E as [C CI I N].
     assert (F0 : 1 <= l_ldf st + 1) by lia.
-    destruct (process_root_sim cap lam vals Hvals T HwfT Hff (l_ldf st + 1) F0 st es Dr k S m g C CI NT I N
+    destruct (process_root_sim cap ep lam vals Hvals T HwfT Hff (l_ldf st + 1) F0 st es Dr k S m g C CI NT I N
                 (Hms m (or_introl eq_refl))) as [res [c1 [el1 [EP [CI1 [I1 [ER Sh]]]]]]].
     { intros H2 m' Hm' _. apply Hprev; auto. }
     fold (st_with st c1 el1) in EP, CI1. rewrite EP.
@@ -158,7 +159,7 @@ Lemma pkr_sim : forall fuel st g S, ES st S -> (cnt_from (l_roots st) g < fuel)%
      (exists a, res = Ok (Some (l_ldf st + 1, a)) /\ decideT (l_ldf st + 1) = Atropos a)).
 Proof.
   induction fuel as [|fu IH]; intros st g S E Hfuel Hg Hpre; [lia|]. cbn [process_known_roots].
-  destruct (frame_roots_for lam vals st es T Dr T g (es_core _ _ E)) as [ms [_ [Hms [Ems _]]]].
+  destruct (frame_roots_for ep lam vals st es T Dr T g (es_core _ _ E)) as [ms [_ [Hms [Ems _]]]].
   rewrite Ems.
   destruct (pkr_frame_sim g ms st S E (fun m H => proj1 (Hms m) H)) as [res [c1 [el1 [EP [CI1 R1]]]]].
   { intros H2 m Hm. apply Hpre; [lia | exact Hm]. }
@@ -196,8 +197,8 @@ Proof.
   intros C Ha Hf. unfold on_frame_decided, apply_atropos.
   assert (K : forall x, In x (ids_of Dr) -> exists ev, get_event es x = Some ev /\ forall p, In p (a_parents ev) -> In p (ids_of Dr)).
   { intros x Hx. unfold ids_of in Hx. apply in_map_iff in Hx as [e [<- He]].
-    exists (to_aevent lam vals e). split.
-    { apply (co_es _ _ _ _ _ _ _ C); [exact He|]. destruct (event_node vals T Dr e HwfTD He) as [m [Hm [Em _]]]. exists m. auto. }
+    exists (to_aevent ep lam vals e). split.
+    { apply (co_es _ _ _ _ _ _ _ _ C); [exact He|]. destruct (event_node vals T Dr e HwfTD He) as [m [Hm [Em _]]]. exists m. auto. }
     cbn [to_aevent a_parents]. intros p Hp. eapply (wfTD_parents vals T Dr HwfTD); eauto. }
   assert (Hs : forall x, In x [nd_id a] -> In x (ids_of Dr)).
   { intros x [<-|[]]. destruct (node_event vals T Dr a HwfTD Ha) as [e [He [E _]]].
@@ -207,7 +208,7 @@ Proof.
   rewrite E. cbn [b_seal policy_fn find]. exists {| b_frame := f; b_atropos := nd_id a; b_cheaters := Abft.cheaters_of st (nd_id a);
              b_delivered := dl; b_seal := None |}, conf'.
   split; [reflexivity|]. split; [|reflexivity]. unfold blk_obs. cbn [b_frame b_atropos b_cheaters].
-  rewrite (cheaters_sim lam vals Hvals st es T Dr T a C Ha). reflexivity.
+  rewrite (cheaters_sim ep lam vals Hvals st es T Dr T a C Ha). reflexivity.
 Qed.
 
 Lemma choose_reset f : (0 < nv)%nat -> choose_atropos (el_reset vals f) = Ok None.
@@ -243,7 +244,7 @@ Definition blocks_ok (bl : list block) : Prop :=
 
 Lemma root_at_frame st x f : Core st es T Dr T -> In x (rts f) -> exists r, In r (l_roots st) /\ r_frame r = f.
 Proof.
-  intros C Hx. exists (slot x f). split; [|reflexivity]. apply (co_roots _ _ _ _ _ _ _ C). exists x, f.
+  intros C Hx. exists (slot x f). split; [|reflexivity]. apply (co_roots _ _ _ _ _ _ _ _ C). exists x, f.
   unfold roots_at in Hx. apply filter_In in Hx. destruct Hx. auto.
 Qed.
 
@@ -302,7 +303,7 @@ Proof.
     { unfold roots_at. apply filter_In. split; [exact HneT|]. unfold is_root_at. lia. }
     destruct E as [C CI I N].
     assert (F0 : 1 <= l_ldf st + 1) by lia.
-    destruct (process_root_sim cap lam vals Hvals T HwfT Hff (l_ldf st + 1) F0 st es Dr k S ne f C CI NT I N Hroot)
+    destruct (process_root_sim cap ep lam vals Hvals T HwfT Hff (l_ldf st + 1) F0 st es Dr k S ne f C CI NT I N Hroot)
       as [res [c1 [el1 [EP [CI1 [I1 [ER Sh]]]]]]].
     { intros H2 m Hm _. apply Hpre; [lia | exact Hm | right; lia]. }
     fold (st_with st c1 el1) in EP, CI1. rewrite EP.
